@@ -169,6 +169,44 @@ Example C16_blocked_entry_raises :
   procs (nrunv Robust kid dS ([EnvBlock 0] ++ call 0 0) (init empty_dir)) = [PRaised 0].
 Proof. exact blocked_raises_l. Qed.
 
+From Coq Require Import String NArith.
+(* ---- the key function in use is selected by the value of PYTHONHASHSEED at call time ---- *)
+(* the selection is a total function of the environment value (a Gallina function: it cannot raise);
+   python-hash mode exactly for non-empty strings of digits, sha256 for everything else:
+   unset, "", "random", any other string *)
+Theorem C16_hash_mode_spec : forall v n,
+  HashMode.hash_mode v = HashMode.PyHash n
+  <-> exists s, v = HashMode.EnvStr s /\ HashMode.isdigit s = true /\ n = HashMode.parse_acc 0 s.
+Proof. exact hash_mode_spec_l. Qed.
+Theorem C16_hash_mode_fallback : forall v,
+  (v = HashMode.EnvUnset \/ exists s, v = HashMode.EnvStr s /\ HashMode.isdigit s = false)
+  <-> HashMode.hash_mode v = HashMode.Sha256.
+Proof. exact hash_mode_fallback_l. Qed.
+
+(* whatever the environment value, whatever key function each mode stands for: correctness *)
+Theorem C16_robust_correct_any_env :
+  forall (expr key : Type) (expr_eqb : expr -> expr -> bool) (key_eqb : key -> key -> bool)
+         (key_of : HashMode.keymode -> expr -> key) (doit : expr -> expr) (v : HashMode.envval),
+  (forall a b, expr_eqb a b = true -> doit a = doit b) ->
+  forall d acts, dir_ok expr key doit d -> no_blocked expr key d -> no_block_actions expr key acts ->
+  let s' := run expr key expr_eqb key_eqb (key_of (HashMode.hash_mode v)) doit Robust acts (init d) in
+  dir_ok expr key doit (dir s')
+  /\ (forall i e w, nth_error (procs s') i = Some (PDone e w) -> w = VExpr (doit e))
+  /\ (forall i e, nth_error (procs s') i <> Some (PRaised e)).
+Proof.
+  intros expr key expr_eqb key_eqb key_of doit v H d acts.
+  exact (C16_robust_correct expr key expr_eqb key_eqb (key_of (HashMode.hash_mode v)) doit H d acts).
+Qed.
+
+Example C16_hash_mode_examples :
+  map HashMode.hash_mode
+    [HashMode.EnvUnset; HashMode.EnvStr ""%string; HashMode.EnvStr "0"%string; HashMode.EnvStr "1234"%string;
+     HashMode.EnvStr "4294967295"%string; HashMode.EnvStr "random"%string; HashMode.EnvStr "abc"%string; HashMode.EnvStr " 1"%string;
+     HashMode.EnvStr "-1"%string; HashMode.EnvStr "12a"%string]
+  = [HashMode.Sha256; HashMode.Sha256; HashMode.PyHash 0%N; HashMode.PyHash 1234%N; HashMode.PyHash 4294967295%N;
+     HashMode.Sha256; HashMode.Sha256; HashMode.Sha256; HashMode.Sha256; HashMode.Sha256].
+Proof. exact hash_mode_examples_l. Qed.
+
 Print Assumptions C16_robust_correct.
 Print Assumptions C16_robust_invariant_step.
 Print Assumptions C16_robust_total.
@@ -185,3 +223,7 @@ Print Assumptions C16_messy_directory_admissible.
 Print Assumptions C16_busy_schedule_admissible.
 Print Assumptions C16_pinned_interleaved_admissible.
 Print Assumptions C16_blocked_entry_raises.
+Print Assumptions C16_hash_mode_spec.
+Print Assumptions C16_hash_mode_fallback.
+Print Assumptions C16_robust_correct_any_env.
+Print Assumptions C16_hash_mode_examples.
